@@ -68,8 +68,18 @@ def block_copolymer_case(rng):
     monomer beads made of atoms, all joined by unlabelled directional descriptors; flattening = the bead sequence written out"""
     monos = rng.sample(sorted(MONOMERS), rng.choice([2, 3]))
     blocks = {}
+    runs = rng.random() < 0.4
+    long_left = 1
     for name in rng.sample(['X', 'Y', 'Z'], rng.choice([2, 3])):
         seq = [rng.choice(monos) for _ in range(rng.randint(1, 4))]
+        if runs:
+            # homopolymer runs, spelled with the expansion operator inside the block definition (one of them with a
+            # two-digit count): [<][#EO]|12[#PP][>] - the closing descriptor sits on the last copy
+            seq = []
+            for _ in range(rng.randint(1, 3)):
+                k = rng.choice([10, 11, 12]) if long_left and rng.random() < 0.5 else rng.choice([1, 2, 3, 4])
+                long_left -= k >= 10
+                seq += [rng.choice(monos)] * k
         blocks[name] = seq
     names = sorted(blocks)
     order = [rng.choice(names) for _ in range(rng.randint(3, 6))]
@@ -78,14 +88,23 @@ def block_copolymer_case(rng):
     spell = lambda seq: ''.join('[#%s]' % m for m in seq)
     caps = True     # without end caps the first block has both descriptors open and the greedy pairing may turn it round:
                     # layered and flattened strings then legitimately differ (seen on the unchanged tree), outside the quantifier
-    lvl1 = (['#S=[#ME][>]', '#E=[<][#OH]'] if caps else []) + ['#%s=[<]%s[>]' % (n, spell(blocks[n])) for n in names]
+    def spell_runs(seq):
+        out, i = '', 0
+        while i < len(seq):
+            j = i
+            while j < len(seq) and seq[j] == seq[i]:
+                j += 1
+            out += '[#%s]' % seq[i] + ('|%d' % (j - i) if j - i > 1 else '')
+            i = j
+        return out
+    lvl1 = (['#S=[#ME][>]', '#E=[<][#OH]'] if caps else []) + ['#%s=[<]%s[>]' % (n, (spell_runs if runs else spell)(blocks[n])) for n in names]
     lvl2 = (['#ME=C[>]', '#OH=[<]O'] if caps else []) + ['#%s=%s' % (m, MONOMERS[m]) for m in monos]
     rng.shuffle(lvl1)
     rng.shuffle(lvl2)
     multi = '{' + ('[#S]' if caps else '') + spell(order) + ('[#E]' if caps else '') + '}.{' + ','.join(lvl1) + '}.{' + ','.join(lvl2) + '}'
     flat = '{' + ('[#ME]' if caps else '') + ''.join(spell(blocks[n]) for n in order) + ('[#OH]' if caps else '') + '}.{' + ','.join(lvl2) + '}'
     return dict(kind='ambig_layered', multi_string=multi, two_level=flat, coarse_last=False, legacy=True, nlevels=2,
-                features=['block_copolymer_three_levels', 'repeated_block_names_not_adjacent', 'blocks_%d' % len(order)])
+                features=['block_copolymer_three_levels', 'repeated_block_names_not_adjacent', 'blocks_%d' % len(order)] + (['runs_spelled_with_the_expansion_operator'] if runs else []))
 
 
 def final_matches(case, aa, truth):
